@@ -218,7 +218,8 @@ class World(object):
         from clastic import Application, StaticApplication
         self.tree = tree
         self.prefix = prefix
-        self.roots = {False: ['root'], True: ['root', 'root2'], 'reversed': ['root2', 'root'], 'nested': ['root', 'root2'], 'index0': ['root', 'root2']}[two_paths]
+        self.roots = {False: ['root'], True: ['root', 'root2'], 'reversed': ['root2', 'root'], 'nested': ['root', 'root2'], 'index0': ['root', 'root2'],
+                      'cached': ['root', 'root2']}[two_paths]
         s1 = StaticApplication([os.path.join(tree.base, r) for r in self.roots])
         s2 = StaticApplication(tree.fb)
         if two_paths == 'index0':
@@ -227,6 +228,11 @@ class World(object):
             s1 = StaticApplication([os.path.join(tree.base, r) for r in self.roots])
             self.app = Application([(prefix, s2)], slash_mode=mode)
             self.app.add((prefix, s1), 0)
+        elif two_paths == 'cached':
+            # inside an application that carries the stock client-cache middleware: what the static applications
+            # decline ends at the catch-all route, whose answer travels back through that middleware
+            from clastic.middleware import HTTPCacheMiddleware
+            self.app = Application([(prefix, s1), (prefix, s2)], slash_mode=mode, middlewares=[HTTPCacheMiddleware(max_age=60)])
         elif two_paths == 'nested':
             # mounted under /s in an application that is itself embedded under /v1
             inner = Application([('/s', s1), ('/s', s2)], slash_mode=mode)
@@ -318,6 +324,8 @@ def configs(tier):
     out.append(('/v1/s', 'redirect', 'nested'))
     out.append(('/v1/s', 'strict', 'nested'))
     out.append(('/s', 'redirect', 'index0'))
+    out.append(('/s', 'redirect', 'cached'))
+    out.append(('/', 'strict', 'cached'))
     return out
 
 
